@@ -69,8 +69,13 @@ var $callDeferred = (deferred, jsErr, fromPanic) => {
                     deferred = null;
                     continue;
                 }
-                /* After runtime.Goexit() the unwinding continues in the caller once this frame's deferred calls are done. */
-                exiting = $curGoroutine.exit && !fromPanic;
+                /* After runtime.Goexit() the unwinding continues in the caller once this frame's deferred calls are done.
+                   Only the frames that were active when Goexit was called are unwound; a function that is called by
+                   one of the deferred calls run on the way returns normally. */
+                exiting = $curGoroutine.exit && !fromPanic && $curGoroutine.deferStack.length < $curGoroutine.exitDepth;
+                if (exiting) {
+                    $curGoroutine.exitDepth = $curGoroutine.deferStack.length;
+                }
                 return;
             }
             var r = call[0].apply(call[2], call[1]);
